@@ -108,7 +108,7 @@ def enum_crashes(seed):
 
     class Proxy:
         def __init__(self, stop_at, eio=False):
-            self.n, self.stop_at, self.eio = 0, stop_at, eio
+            self.n, self.stop_at, self.eio, self.dead = 0, stop_at, eio, False
 
         def __getattr__(self, name):
             real = getattr(os, name)
@@ -116,10 +116,13 @@ def enum_crashes(seed):
                 return real
 
             def f(*a, **k):
+                if self.dead:
+                    raise _Stop()       # a dead process performs no further file operation, whatever handlers its code has
                 self.n += 1
                 if self.n == self.stop_at:
                     if self.eio:
                         raise OSError(errno.EIO, "injected I/O error")
+                    self.dead = True
                     raise _Stop()
                 return real(*a, **k)
             return f
